@@ -153,6 +153,8 @@ def main(argv=None):
     except AnalysisError as e:
         print(f"ANALYSIS-ERROR property={prop} {e}")
         return 2
+    except (NameError, UnboundLocalError):
+        raise
     except Exception:
         traceback.print_exc()
         print(f"ANALYSIS-ERROR property={prop} internal error in the checker (traceback above)")
